@@ -221,6 +221,7 @@ def proof_status(prop_file):
         txt = fh.read()
     txt_nc = re.sub(r"\(\*.*?\*\)", "", txt, flags=re.S)
     theorems = re.findall(r"^\s*(?:Theorem|Lemma|Corollary)\s+(\w+)", txt_nc, flags=re.M)
+    examples = re.findall(r"^\s*Example\s+(\w+)", txt_nc, flags=re.M)
     # force recompilation of the property file so that its output is captured
     vo = os.path.join(COQ, rel)
     if os.path.exists(vo):
@@ -250,7 +251,7 @@ def proof_status(prop_file):
             if a not in AXIOM_WHITELIST and a.split(".")[-1] not in AXIOM_WHITELIST:
                 bad_ax.append("%s depends on %s" % (name, a))
     missing_pa = [t for t in theorems if t not in axioms]
-    return dict(theorems=theorems, ok=ok and not bad_ax and not missing_pa,
+    return dict(theorems=theorems + examples, ok=ok and not bad_ax and not missing_pa,
                 compiled=ok, axioms=axioms, bad_axioms=bad_ax, missing_print_assumptions=missing_pa, log=log[-6000:])
 
 
